@@ -1500,6 +1500,24 @@ fn inventory(file: &syn::File, src: &Src, it: &Item) -> ItemOut {
             syn::visit::visit_item_fn(self, f);
             self.cur.pop();
         }
+        fn visit_expr_method_call(&mut self, m: &'ast syn::ExprMethodCall) {
+            // `X.get_unchecked(e)` / `X.get_unchecked_mut(e)`: spans for the unchecked -> checked probe
+            if (m.method == "get_unchecked" || m.method == "get_unchecked_mut") && m.args.len() == 1 && !self.cur.is_empty() {
+                let (ws, we) = self.src.range(m.span());
+                let (rs, re) = self.src.range(m.receiver.span());
+                let (as_, ae) = self.src.range(m.args[0].span());
+                let mut row = BTreeMap::new();
+                row.insert("kind".to_string(), "unchecked".to_string());
+                row.insert("fn".to_string(), self.cur.join("::"));
+                row.insert("line".to_string(), self.src.line_of(ws).to_string());
+                row.insert("whole".to_string(), format!("{ws}:{we}"));
+                row.insert("recv".to_string(), format!("{rs}:{re}"));
+                row.insert("arg".to_string(), format!("{as_}:{ae}"));
+                row.insert("mut".to_string(), (m.method == "get_unchecked_mut").to_string());
+                self.rows.push(row);
+            }
+            syn::visit::visit_expr_method_call(self, m);
+        }
         fn visit_expr_if(&mut self, i: &'ast syn::ExprIf) {
             // `if c { A } else { B }` (no `if let`, no `else if`): spans for the branch-swap probe
             if let Some((_, els)) = &i.else_branch {
